@@ -459,7 +459,7 @@ def rule_E4(repo: Repo) -> RuleResult:
                 state.add(norm(s.targets[0]))
         if len(state) < 2:
             raise AnalysisError(f"E4: running numerator / weight of {kname} not found (state multiplied by {beta}: {sorted(state)})")
-        for p in enumerate_paths(loop.body):
+        for p in enumerate_paths(loop.body, split_bool=True):
             if p.exit not in ("fall", "continue"):
                 continue
             # null-key rows are not rows of any group's series
@@ -1006,7 +1006,7 @@ def _accepted_paths(f: Func, loop: ast.For):
     from .rules_k import _mask_aliases, _selection_of_path
     aliases = _mask_aliases(f, {"mask"})
     out = []
-    for p in enumerate_paths(loop.body):
+    for p in enumerate_paths(loop.body, split_bool=True):
         if p.exit not in ("fall", "continue"):
             continue
         null_key = any(pol is True and isinstance(t, ast.Compare) and len(t.ops) == 1 and isinstance(t.ops[0], ast.Lt)
@@ -1228,7 +1228,7 @@ def rule_H1(repo: Repo) -> RuleResult:
     if len(counters) != 1:
         raise AnalysisError(f"H1: occurrence counter of _find_nth not identified ({sorted(counters)})")
     cnt = next(iter(counters))
-    for p in enumerate_paths(loop.body):
+    for p in enumerate_paths(loop.body, split_bool=True):
         if p.exit not in ("fall", "continue"):
             continue
         if any(pol is True and isinstance(t, ast.Compare) and isinstance(t.ops[0], ast.Lt) and const_int(t.comparators[0]) == 0
@@ -1334,12 +1334,16 @@ def rule_H2(repo: Repo) -> RuleResult:
     if loop is None:
         raise AnalysisError("H2: row loop of the counting sort not found")
     n = 0
-    for p in enumerate_paths(loop.body):
+    from .rules_k import _mask_aliases, _selection_of_path
+    mask_names = {p_ for p_ in f.named_params if "mask" in p_}
+    aliases = _mask_aliases(f, mask_names)
+    for p in enumerate_paths(loop.body, split_bool=True):
         writes = [st for st in p.stmts if isinstance(st, ast.Assign) and isinstance(st.targets[0], ast.Subscript)
                   and base_name(st.targets[0]) not in roles.per_group_arrays and base_name(st.targets[0]) not in f.named_params]
         incs = [st for st in p.stmts if isinstance(st, ast.AugAssign) and isinstance(st.target, ast.Subscript)
                 and base_name(st.target) in roles.per_group_arrays and isinstance(st.op, ast.Add) and const_int(st.value) == 1]
-        accepted = any(pol is True and isinstance(t, ast.AST) and ">= 0" in norm(t) for t, pol in p.conds)
+        accepted = any(pol is True and isinstance(t, ast.AST) and ">= 0" in norm(t) for t, pol in p.conds) \
+            and _selection_of_path(p, mask_names, aliases) != "unselected"
         if not accepted:
             if writes or incs:
                 res.bad(f, (writes or incs)[0], f"skipped row writes on {p.describe()[:70]}", "a skipped row must not move any position")
@@ -1375,12 +1379,15 @@ def rule_E5(repo: Repo) -> RuleResult:
         if len(xs) != 1:
             raise AnalysisError(f"E5: the value variable of {kname} is not identified ({sorted(xs)})")
         x = next(iter(xs))
-        for p in enumerate_paths(loop.body):
+        for p in enumerate_paths(loop.body, split_bool=True):
             if p.exit not in ("fall", "continue"):
                 continue
             # valid-row path: the isnan test (possibly inside an `or`) was decided false
             valid = any(pol is False and isinstance(t, ast.AST) and f"isnan({x})" in norm(t) for t, pol in p.conds)
             if not valid:
+                continue
+            from .rules_k import _mask_aliases, _selection_of_path
+            if "mask" in f.named_params and _selection_of_path(p, {"mask"}, _mask_aliases(f, {"mask"})) == "unselected":
                 continue
             outs = [(i, st) for i, st in enumerate(p.stmts) if isinstance(st, ast.Assign) and isinstance(st.targets[0], ast.Subscript)
                     and isinstance(st.value, ast.BinOp) and isinstance(st.value.op, ast.Div)]
